@@ -14,6 +14,7 @@
 From Coq Require Import List ZArith Bool Arith Lia.
 Import ListNotations.
 From QV Require Import Model.C12 Proofs.C12 Model.C12_mt Proofs.C12_mt.
+From QV Require Import Model.C12_mc Proofs.C12_mc Model.C12_sto Proofs.C12_sto.
 
 Section Props.
   Variables T S V N : Type.
@@ -302,6 +303,31 @@ Section Props.
       rewrite Nz, !map_length, L. cbn [pred]. rewrite map_map.
       f_equal. f_equal. f_equal. apply map_ext. intros x. rewrite map_length, L. reflexivity.
   Qed.
+  (* the shape invariant the accessor theorems below assume, for every record
+     produced by a stochastic run: one noise increment per step, one m_expect
+     row per measurement operator, each with one entry per time *)
+  Theorem C12_stochastic_record_invariant :
+    forall o e m s0 tlist r,
+      (forall j t, snd (snd (integrate j t)) <> None) ->
+      solver_run CStoch o e m s0 tlist = Ok r ->
+      Datatypes.S (length (r_noise _ _ _ _ r)) = length (r_times _ _ _ _ r)
+      /\ length (r_mexp _ _ _ _ r) = (if store_measurement o then length m else 0%nat)
+      /\ forall row, In row (r_mexp _ _ _ _ r) -> length row = length (r_times _ _ _ _ r).
+  Proof.
+    intros o e m s0 tlist r Hn H. destruct tlist as [|t0 rest]; [discriminate|].
+    rewrite (solver_run_spec T S V N expectQ expectE callF rho conv D IS prepare restore set_state integrate _ _ _ _ _ _ _ _ H).
+    assert (L : length (run_points s0 t0 rest) = Datatypes.S (length rest)).
+    { unfold Proofs.C12.run_points. simpl. rewrite map_length, integ_run_length. reflexivity. }
+    assert (Nz : length (noises T S N (run_points s0 t0 rest)) = length rest).
+    { unfold Proofs.C12.run_points. unfold noises. cbn [flat_map snd app].
+      apply (integ_run_noise T S N D IS restore integrate rest _ Hn). }
+    unfold spec. cbn [r_noise r_times r_mexp use_m is_stoch].
+    rewrite map_length, L, Nz. split; [reflexivity|]. split.
+    - destruct (store_measurement o); [apply map_length|reflexivity].
+    - intros row Hin. destruct (store_measurement o); [|destruct Hin].
+      apply in_map_iff in Hin. destruct Hin as (op0 & Hrow & _). subst row.
+      rewrite map_length. exact L.
+  Qed.
 End Props.
 
 Print Assumptions C12_times_one_per_add.
@@ -318,6 +344,7 @@ Print Assumptions C12_run_one_point_per_time.
 Print Assumptions C12_run_is_add_sequence.
 Print Assumptions C12_run_errors.
 Print Assumptions C12_stochastic_shapes.
+Print Assumptions C12_stochastic_record_invariant.
 
 Print Assumptions C12_trajectory_flags.
 
@@ -369,6 +396,243 @@ Theorem C12_multitraj_processors : forall o nops,
   /\ (In MReduceExpect (mt_procs o nops) <-> nops <> 0).
 Proof. exact mt_processors. Qed.
 Print Assumptions C12_multitraj_processors.
+
+
+(* =========================================================================
+   Collapse records of the Monte-Carlo results (Model/C12_mc.v): for every
+   number of c_ops, every tlist, every history of add / add_deterministic
+   calls and every collapse record *)
+
+(* one record and one weight per added trajectory, in order; deterministic
+   (no-jump) trajectories contribute none; col_times[i] / col_which[i] are
+   the times / c_ops indices of trajectory i's collapses, pairwise aligned *)
+Theorem C12_mc_collapse_records : forall nc times evs,
+  let r := mc_run nc times evs in
+  (mc_collapse r = map fst (adds_of evs) /\ mc_weights r = map snd (adds_of evs)
+   /\ mc_ntraj r = length (adds_of evs) /\ mc_nc r = nc /\ mc_times r = times)
+  /\ length (col_times (mc_collapse r)) = length (mc_collapse r)
+  /\ length (col_which (mc_collapse r)) = length (mc_collapse r)
+  /\ forall i rec, nth_error (mc_collapse r) i = Some rec ->
+       nth_error (col_times (mc_collapse r)) i = Some (map fst rec)
+       /\ nth_error (col_which (mc_collapse r)) i = Some (map snd rec)
+       /\ combine (map fst rec) (map snd rec) = rec.
+Proof.
+  intros nc times evs r. split; [apply mc_run_records|].
+  destruct (col_records (mc_collapse r)) as (A & B & C). split; [exact A|split; [exact B|exact C]].
+Qed.
+Print Assumptions C12_mc_collapse_records.
+
+(* np.histogram with explicit monotone edges, as used by photocurrent: bin k
+   holds the weight of the samples in [e_k, e_k+1) - closed on the right for
+   the last bin - for every sample list and every edge list *)
+Theorem C12_histogram_bins : forall a e,
+  (monotone e = true -> histogram a e = HOk (bin_sums a e)
+                        /\ length (bin_sums a e) = pred (length e))
+  /\ (monotone e = false -> histogram a e = HRaise HValueError).
+Proof.
+  intros a e. split; [intros M; split; [apply histogram_ok; exact M|apply bin_sums_length]|].
+  apply histogram_err.
+Qed.
+Print Assumptions C12_histogram_bins.
+
+(* nothing is lost or counted twice: the bins add up to the weight of the
+   samples inside [e_0, e_last]; a single sample inside the range contributes
+   its weight to exactly one bin in total, a sample outside to none *)
+Theorem C12_histogram_conserves : forall a x y e, monotone (x :: y :: e) = true ->
+  zsum (bin_sums a (x :: y :: e))
+  = wsum (fun u => (x <=? u) && (u <=? lastz (x :: y :: e)))%Z a
+  /\ (forall t w, (x <= t <= lastz (x :: y :: e))%Z ->
+        zsum (bin_sums [(t, w)] (x :: y :: e)) = w)
+  /\ (forall t w, (t < x \/ lastz (x :: y :: e) < t)%Z ->
+        zsum (bin_sums [(t, w)] (x :: y :: e)) = 0%Z).
+Proof.
+  intros a x y e M. rewrite <- !hist_bins by exact M.
+  split; [apply hist_total; exact M|]. split; intros t w H.
+  - rewrite <- hist_bins by exact M. apply hist_single; assumption.
+  - rewrite <- hist_bins by exact M. apply hist_outside; assumption.
+Qed.
+Print Assumptions C12_histogram_conserves.
+
+(* runs_photocurrent[i][c][k] (times the bin width) is the number of
+   collapses of trajectory i through c_op c inside bin k, and every recorded
+   collapse inside [tlist[0], tlist[-1]] is counted exactly once over all
+   channels and bins *)
+Theorem C12_runs_photocurrent_counts : forall r,
+  forallb (fun rec => negb (bad_which (mc_nc r) rec)) (mc_collapse r) = true ->
+  monotone (mc_times r) = true ->
+  runs_photocurrent r = HOk (map (run_counts (mc_nc r) (mc_times r)) (mc_collapse r))
+  /\ forall x y e rec, mc_times r = x :: y :: e -> In rec (mc_collapse r) ->
+       zsum (map zsum (run_counts (mc_nc r) (x :: y :: e) rec))
+       = in_range x (lastz (x :: y :: e)) rec.
+Proof.
+  intros r B M. split; [apply runs_photocurrent_ok; assumption|].
+  intros x y e rec Ht Hin. apply run_counts_total.
+  - rewrite forallb_forall in B. specialize (B rec Hin).
+    destruct (bad_which (mc_nc r) rec); [discriminate|reflexivity].
+  - rewrite <- Ht. exact M.
+Qed.
+Print Assumptions C12_runs_photocurrent_counts.
+
+(* photocurrent[c] (times num_trajectories and the bin widths) is the
+   weight-weighted sum of the per-run histograms, trajectory by trajectory *)
+Theorem C12_photocurrent_weighted_runs : forall nc times evs,
+  let r := mc_run nc times evs in
+  forallb (fun rec => negb (bad_which nc rec)) (mc_collapse r) = true ->
+  monotone times = true ->
+  photocurrent r
+  = HOk (map (fun c => weighted_runs c times (adds_of evs)) (seq 0 nc)).
+Proof.
+  intros nc times evs r B M.
+  destruct (mc_run_records nc times evs) as (A1 & A2 & _ & A4 & A5). fold r in A1, A2, A4, A5.
+  rewrite photocurrent_ok.
+  - rewrite A4, A5, A1, A2.
+    rewrite combine_fst_snd. reflexivity.
+  - rewrite A1, A2, !map_length. reflexivity.
+  - rewrite A4. exact B.
+  - rewrite A5. exact M.
+Qed.
+Print Assumptions C12_photocurrent_weighted_runs.
+
+(* error branches: a c_ops index outside range(num_c_ops) -> IndexError;
+   a tlist that is not monotone -> ValueError (when there is a channel) *)
+Theorem C12_photocurrent_errors : forall nc times rec,
+  (bad_which nc rec = true -> run_hist nc times rec = HRaise HIndexError)
+  /\ (bad_which (Datatypes.S nc) rec = false -> monotone times = false ->
+      run_hist (Datatypes.S nc) times rec = HRaise HValueError).
+Proof.
+  intros nc times rec. split; [apply run_hist_bad_which|apply run_hist_not_monotone].
+Qed.
+Print Assumptions C12_photocurrent_errors.
+
+Example C12_nonvacuous_photocurrent :
+  let evs := [EvAdd [(1, 0%nat); (2, 1%nat); (7, 0%nat)] 1; EvDet [] 1; EvAdd [(4, 1%nat)] 3]%Z in
+  let r := mc_run 2 [0; 2; 4]%Z evs in
+  forallb (fun rec => negb (bad_which 2 rec)) (mc_collapse r) = true
+  /\ monotone [0; 2; 4]%Z = true
+  /\ photocurrent r = HOk [[1; 0]; [0; 4]]%Z
+  /\ runs_photocurrent r = HOk [[[1; 0]; [0; 1]]; [[0; 0]; [0; 1]]]%Z
+  /\ run_hist 1 [0; 2]%Z [(1, 3%nat)]%Z = HRaise HIndexError
+  /\ run_hist 1 [2; 0]%Z [(1, 0%nat)]%Z = HRaise HValueError.
+Proof. vm_compute. repeat split; reflexivity. Qed.
+
+(* =========================================================================
+   Stochastic trajectory records (Model/C12_sto.v): index alignment of dW,
+   wiener_process and measurement with the time list, for every well-shaped
+   record (C12_stochastic_record_invariant proves the shape for every run) *)
+
+(* dW[i][j] is component i of the increment of step j *)
+Theorem C12_dW_index : forall r, st_het r = false -> st_noise r <> [] ->
+  rectangular (st_noise r) = true ->
+  dW r = SOk (Homodyne (noise_T (st_noise r)))
+  /\ length (noise_T (st_noise r)) = nrows (st_noise r)
+  /\ forall i j, (i < nrows (st_noise r))%nat -> (j < length (st_noise r))%nat ->
+       length (nth i (noise_T (st_noise r)) []) = length (st_noise r)
+       /\ nth j (nth i (noise_T (st_noise r)) []) 0%Z = nth i (nth j (st_noise r) []) 0%Z.
+Proof.
+  intros r Hh Hn Hr. split; [apply dW_homodyne; assumption|].
+  destruct (noise_T_shape (st_noise r)) as [L1 L2]. split; [exact L1|].
+  intros i j Hi Hj. split; [apply L2; exact Hi|apply noise_T_entry; assumption].
+Qed.
+Print Assumptions C12_dW_index.
+
+(* wiener_process[i] has one entry per time: 0 at tlist[0], and entry k+1 is
+   entry k plus the increment of step k (so entry k is the sum of the first k
+   increments) *)
+Theorem C12_wiener_process_index : forall r, st_noise r <> [] ->
+  rectangular (st_noise r) = true ->
+  Datatypes.S (length (st_noise r)) = length (st_times r) ->
+  wiener_process r = shape_rows (st_het r) (W_rows (st_noise r))
+  /\ length (W_rows (st_noise r)) = nrows (st_noise r)
+  /\ forall i, (i < nrows (st_noise r))%nat ->
+       length (nth i (W_rows (st_noise r)) []) = length (st_times r)
+       /\ nth 0 (nth i (W_rows (st_noise r)) []) 0%Z = 0%Z
+       /\ forall k, (k < length (st_noise r))%nat ->
+            nth (Datatypes.S k) (nth i (W_rows (st_noise r)) []) 0%Z
+            = (nth k (nth i (W_rows (st_noise r)) []) 0 + nth i (nth k (st_noise r) []) 0)%Z.
+Proof.
+  intros r Hn Hr Hl. split; [apply wiener_ok; assumption|].
+  destruct (W_rows_shape (st_noise r)) as [L1 L2]. split; [exact L1|].
+  intros i Hi. split; [rewrite (L2 i Hi); exact Hl|]. apply W_rows_entries. exact Hi.
+Qed.
+Print Assumptions C12_wiener_process_index.
+
+(* measurement[i][j] = expectation of m_op i at the documented end of step j
+   ('start': tlist[j], 'end'/True: tlist[j+1], 'middle': the mean of both)
+   + dW_factor[i] * (increment i of step j) / (tlist[j+1] - tlist[j]) *)
+Theorem C12_measurement_index : forall r,
+  conv_ok (st_opt r) = true -> st_mexp r <> [] -> meas_wf r = true ->
+  measurement r = shape_rows (st_het r) (meas_rows (st_opt r) r)
+  /\ forall i j, (i < nrows (st_noise r))%nat -> (j < length (st_noise r))%nat ->
+       length (meas_rows (st_opt r) r) = nrows (st_noise r)
+       /\ length (nth i (meas_rows (st_opt r) r) []) = length (st_noise r)
+       /\ nth j (nth i (meas_rows (st_opt r) r) []) (0, 1, 0, 0)%Z
+          = (fst (mterm (st_opt r) (nth i (st_mexp r) []) j),
+             snd (mterm (st_opt r) (nth i (st_mexp r) []) j),
+             (nth i (st_factor r) 0 * nth i (nth j (st_noise r) []) 0)%Z,
+             (nth (Datatypes.S j) (st_times r) 0 - nth j (st_times r) 0)%Z).
+Proof.
+  intros r Ho Hm Hw. split; [apply measurement_ok; assumption|].
+  intros i j Hi Hj. apply meas_rows_entry; assumption.
+Qed.
+Print Assumptions C12_measurement_index.
+
+(* heterodyne records: rows 2g and 2g+1 become [g][0] and [g][1] *)
+Theorem C12_heterodyne_grouping : forall (A : Type) (rows : list A) (d : A),
+  Nat.even (length rows) = true ->
+  shape_rows true rows = SOk (Heterodyne (pair_rows rows))
+  /\ (2 * length (pair_rows rows) = length rows)%nat
+  /\ forall g, (2 * g + 1 < length rows)%nat ->
+       nth g (pair_rows rows) (d, d) = (nth (2 * g) rows d, nth (2 * g + 1) rows d).
+Proof.
+  intros A rows d He. split; [unfold shape_rows; rewrite He; reflexivity|].
+  split; [apply pair_rows_length; exact He|]. intros g Hg. apply nth_pair_rows. exact Hg.
+Qed.
+Print Assumptions C12_heterodyne_grouping.
+
+(* the remaining branches: measurement is None when store_measurement is off,
+   empty without m_ops, a ValueError for an unknown convention; without any
+   step wiener_process raises IndexError and dW is empty (IndexError for
+   heterodyne) *)
+Theorem C12_stochastic_accessor_branches : forall r,
+  (st_opt r = SMOff -> measurement r = SNone)
+  /\ (st_opt r <> SMOff -> st_mexp r = [] -> measurement r = SOk (Homodyne []))
+  /\ (st_opt r = SMOther -> st_mexp r <> [] -> measurement r = SRaise SValueError)
+  /\ (st_noise r = [] -> wiener_process r = SRaise SIndexError)
+  /\ (st_noise r = [] ->
+      dW r = if st_het r then SRaise SIndexError else SOk (Homodyne [])).
+Proof.
+  intros r. split; [apply measurement_off|]. split; [apply measurement_no_mops|].
+  split; [apply measurement_other|]. split; [apply wiener_no_noise|apply dW_no_noise].
+Qed.
+Print Assumptions C12_stochastic_accessor_branches.
+
+(* StochasticResult.measurement / dW / wiener_process: the per-trajectory
+   records in trajectory order when the runs are kept or store_measurement
+   is set, None otherwise *)
+Theorem C12_trajectories_attr : forall (A : Type) keep store (per : list A),
+  traj_attr keep store per = if keep || store then SOk per else SNone.
+Proof. exact traj_attr_cases. Qed.
+Print Assumptions C12_trajectories_attr.
+
+Definition c12_nv_straj (o : smopt) (het : bool) := {|
+  st_times := [0; 1; 3; 4]%Z; st_noise := [[1; -2]; [3; 5]; [-1; 0]]%Z;
+  st_mexp := [[10; 20; 30; 40]; [1; 2; 3; 4]]%Z; st_factor := [2; 1]%Z;
+  st_opt := o; st_het := het |}.
+
+Example C12_nonvacuous_stochastic_records :
+  rectangular (st_noise (c12_nv_straj SMStart false)) = true
+  /\ meas_wf (c12_nv_straj SMMiddle false) = true
+  /\ dW (c12_nv_straj SMStart false) = SOk (Homodyne [[1; 3; -1]; [-2; 5; 0]]%Z)
+  /\ wiener_process (c12_nv_straj SMStart true)
+     = SOk (Heterodyne [([0; 1; 4; 3], [0; -2; 3; 3])]%Z)
+  /\ measurement (c12_nv_straj SMEnd false)
+     = SOk (Homodyne [[(20, 1, 2, 1); (30, 1, 6, 2); (40, 1, -2, 1)];
+                      [(2, 1, -2, 1); (3, 1, 5, 2); (4, 1, 0, 1)]]%Z)
+  /\ measurement (c12_nv_straj SMMiddle false)
+     = SOk (Homodyne [[(30, 2, 2, 1); (50, 2, 6, 2); (70, 2, -2, 1)];
+                      [(3, 2, -2, 1); (5, 2, 5, 2); (7, 2, 0, 1)]]%Z)
+  /\ measurement (c12_nv_straj SMOther false) = SRaise SValueError.
+Proof. vm_compute. repeat split; reflexivity. Qed.
 
 (* Historical note (qutip before commit 676e94e): `old_final_ado_state`
    returned self._final_state, i.e. the system density matrix rho(a) instead
